@@ -9,6 +9,8 @@ import (
 
 	"golang.org/x/tools/go/ssa"
 
+	"golang.org/x/tools/go/packages"
+
 	"d2verif/internal/core"
 )
 
@@ -17,7 +19,7 @@ func init() {
 		ID:       "C10",
 		Title:    "Later declarations override earlier ones; null removes",
 		Patterns: []string{"./d2ir", "./d2ast"},
-		Explanation: "Decides sibling agreement and shape clauses of d2ir's field bookkeeping: (1) the three functions that find a field by name in Map.Fields (getField, the search loop of ensureField, DeleteField) apply the same name predicate — case-insensitive comparison (strings.EqualFold) *and* separation of quoted names from unquoted reserved keywords; a function that lacks a feature its siblings have is reported; " +
+		Explanation: "Decides sibling agreement and shape clauses of d2ir's field bookkeeping (plus: every function of d2ir, d2graph and d2ast that compares two slices element by element and answers false on a difference also compares their lengths): (1) the three functions that find a field by name in Map.Fields (getField, the search loop of ensureField, DeleteField) apply the same name predicate — case-insensitive comparison (strings.EqualFold) *and* separation of quoted names from unquoted reserved keywords; a function that lacks a feature its siblings have is reported; " +
 			"(2) on the null branch of _compileField the field is deleted and nothing else is done with it (the branch ends in return right after the delete), and on both null branches of _compileEdges DeleteEdge is followed by continue.",
 		NotCovered: "the override semantics itself (last assignment wins) — needs a reference interpreter; which of several same-named fields a delete-by-name removes",
 		Technique:  "static analysis: predicate-feature extraction and sibling comparison; statement-shape checks on the typed AST",
@@ -115,6 +117,21 @@ func fieldLookupFeatures(c *core.Check, fi *core.FuncInfo) lookupFeatures {
 }
 
 func runC10(c *core.Check) {
+	c.Rule("C10.slice-equality", "element-wise comparisons of two paths also compare their lengths")
+	{
+		var pkgs []*packages.Package
+		for _, rel := range []string{"d2ir", "d2graph", "d2ast"} {
+			if pk := c.P.Pkg(rel); pk != nil {
+				pkgs = append(pkgs, pk)
+			}
+		}
+		issues, n := sliceEqualityIssues(c.P, pkgs)
+		for _, is := range issues {
+			c.Fail("C10.slice-equality", is.Key, is.Pos, is.Text+": a lookup by ID then also hits elements with a longer (or shorter) path — a.b matches a.b.c")
+		}
+		c.Decide(n >= 2, "C10.slice-equality", "slice-equality:inventory", token.NoPos, fmt.Sprintf("%d element-wise path comparisons, each with a length comparison", n), fmt.Sprintf("only %d element-wise comparisons found", n))
+	}
+
 	c.Rule("C10.predicate", "getField, ensureField and DeleteField compare names with EqualFold and separate quoted names from reserved keywords")
 	c.Rule("C10.null", "null branches delete and do nothing else with the node")
 	feats := map[string]lookupFeatures{}
@@ -200,6 +217,31 @@ func runC10(c *core.Check) {
 			case *ast.CallExpr:
 				if core.IsCallTo(info, x, "strings.EqualFold") && len(x.Args) == 2 && fromPath(x.Args[0]) && fromPath(x.Args[1]) {
 					nfold++
+				}
+				// the element comparison may live in a helper of the package that is given the two paths
+				if callee := core.CalleeOf(info, x); callee != nil && callee.Pkg() == fi.Pkg.Types && len(x.Args) >= 2 {
+					npath := 0
+					for _, a := range x.Args {
+						if v := core.FieldOf(info, a); v != nil && pathFields[v] {
+							npath++
+						}
+					}
+					if h := c.P.Decl(callee); npath >= 2 && h != nil && h.Decl.Body != nil {
+						ast.Inspect(h.Decl.Body, func(m ast.Node) bool {
+							switch y := m.(type) {
+							case *ast.CallExpr:
+								if core.IsCallTo(h.Pkg.TypesInfo, y, "strings.EqualFold") {
+									nfold++
+								}
+							case *ast.BinaryExpr:
+								if (y.Op == token.EQL || y.Op == token.NEQ) && strings.Contains(exprStr(y.X), "ScalarString()") && strings.Contains(exprStr(y.Y), "ScalarString()") {
+									nexact++
+									exactPos = y.Pos()
+								}
+							}
+							return true
+						})
+					}
 				}
 			case *ast.BinaryExpr:
 				if (x.Op == token.EQL || x.Op == token.NEQ) && !isConst(info, x.X) && !isConst(info, x.Y) && fromPath(x.X) && fromPath(x.Y) {
